@@ -588,10 +588,11 @@ class CallProxy (object):
   def _forgetMe (self, o):
     # o is the weak reference object; we don't use it
     #print("Forgetting",self.removeData,self.method)
+    # Whatever happens below, this proxy must not be called into again
+    self.obj = None
     source = self.source()
     if source is not None:
       source.removeListener(self.removeData)
-    self.obj = None
   def __call__ (self, *args, **kw):
     #print("weak call")
     if self.obj is None: return
